@@ -208,6 +208,11 @@ func init() {
 	specLibFuncs["content"] = func(x *FnExec, c *evalCtx, args []Val) (Val, error) {
 		return Val{S: x.blobOf(c.state(), args[0].S), Sort: "Blob"}, nil
 	}
+	specLibFuncs["strBlob"] = func(x *FnExec, c *evalCtx, args []Val) (Val, error) {
+		x.q.declareSortOnce("Blob")
+		x.q.declareFun("lib_strblob", []string{"Str"}, "Blob")
+		return Val{S: fmt.Sprintf("(lib_strblob %s)", args[0].S), Sort: "Blob"}, nil
+	}
 	specLibFuncs["mergePatch"] = func(x *FnExec, c *evalCtx, args []Val) (Val, error) {
 		x.q.declareSortOnce("Blob")
 		x.q.declareFun("pf_mergePatch", []string{"Blob", "Blob"}, "Blob")
